@@ -1,5 +1,6 @@
 // ssl-grammar: dump a pest grammar (as pest_meta parses it - the same front end pest_derive uses)
 // as JSON: rule name, type (normal/silent/atomic/compound/nonatomic), expression tree.
+mod vm;
 use pest_meta::ast::{Expr, RuleType};
 use pest_meta::parser::{self, Rule};
 
@@ -47,8 +48,78 @@ fn expr(e: &Expr) -> String {
     }
 }
 
+// `ssl-grammar parse <file.pest> <snippets.tsv>`: each line `id<TAB>rule<TAB>JSON-string-escaped text`; prints a JSON
+// object id -> {ok, tree | error}
+fn parse_mode(grammar: &str, snippets: &str) {
+    let src = std::fs::read_to_string(grammar).expect("read grammar");
+    let pairs = parser::parse(Rule::grammar_rules, &src).unwrap_or_else(|e| {
+        eprintln!("grammar does not parse: {}", e);
+        std::process::exit(2)
+    });
+    let rules = parser::consume_rules(pairs).unwrap_or_else(|es| {
+        for e in es {
+            eprintln!("{}", e);
+        }
+        std::process::exit(2)
+    });
+    let vm = vm::Vm::new(pest_meta::optimizer::optimize(rules));
+    let text = std::fs::read_to_string(snippets).expect("read snippets");
+    let mut out = Vec::new();
+    for line in text.lines() {
+        let mut it = line.splitn(3, '\t');
+        let (Some(id), Some(rule), Some(body)) = (it.next(), it.next(), it.next()) else { continue };
+        let body = unescape(body);
+        match vm.parse(rule, &body) {
+            Ok(pairs) => {
+                let mut s = String::from("[");
+                let mut first = true;
+                for p in pairs {
+                    if !first {
+                        s.push(',');
+                    }
+                    first = false;
+                    vm::pair_json(p, &mut s, &|x| esc(x));
+                }
+                s.push(']');
+                out.push(format!("{}:{{\"ok\":true,\"text\":{},\"tree\":{}}}", esc(id), esc(&body), s));
+            }
+            Err(e) => out.push(format!("{}:{{\"ok\":false,\"text\":{},\"error\":{}}}", esc(id), esc(&body), esc(&e))),
+        }
+    }
+    println!("{{{}}}", out.join(","));
+}
+
+// the snippet file escapes only backslash, newline, tab and carriage return
+fn unescape(s: &str) -> String {
+    let mut o = String::new();
+    let mut it = s.chars();
+    while let Some(c) = it.next() {
+        if c == '\\' {
+            match it.next() {
+                Some('n') => o.push('\n'),
+                Some('t') => o.push('\t'),
+                Some('r') => o.push('\r'),
+                Some('\\') => o.push('\\'),
+                Some(x) => {
+                    o.push('\\');
+                    o.push(x)
+                }
+                None => o.push('\\'),
+            }
+        } else {
+            o.push(c)
+        }
+    }
+    o
+}
+
 fn main() {
-    let path = std::env::args().nth(1).expect("usage: ssl-grammar <file.pest>");
+    let args: Vec<String> = std::env::args().collect();
+    if args.len() == 4 && args[1] == "parse" {
+        parse_mode(&args[2], &args[3]);
+        return;
+    }
+    let path = std::env::args().nth(1).expect("usage: ssl-grammar <file.pest> | ssl-grammar parse <file.pest> <snippets.tsv>");
     let src = std::fs::read_to_string(&path).expect("read grammar");
     let pairs = match parser::parse(Rule::grammar_rules, &src) {
         Ok(p) => p,
